@@ -10,6 +10,8 @@
 (* of its own type each type-blind evaluator agrees with the meaning; hence a guarded step only asserts        *)
 (* true statements (Sound).  Without the type discipline (Guarded <- FALSE, how nat_eval & co. are coded       *)
 (* before the repair) Sound is violated: `(2::int) - 3 = 0` is asserted by the natural-number step.            *)
+(* The universe also contains comparisons of SURDS (sqrt of the leaves, negated, shifted and scaled by the     *)
+(* leaves): the meaning decides each of them (ValTotal), exactly (C05_Surd: squaring, no approximation).       *)
 EXTENDS C05_HolArith, TLC, Json, IOUtils, SequencesExt
 
 CONSTANTS LeafVals,     \* numerals at the leaves, e.g. {0,1,2,3,7}
@@ -139,7 +141,17 @@ GoalsN == { Not(g) : g \in { x \in GoalsA : x[3][2] \in { Num(ArgT(x), 0) } \cup
 ExpDeep == { Pow("real", "nat", a, Bin("minus", "nat", b, Bin("minus", "nat", c, d))) :
              a \in Leaves("real"), b \in Leaves("nat"), c \in Leaves("nat"), d \in Leaves("nat") }
 GoalsX == UNION { { Rel("equals", "real", l, r) : r \in { Pow("real", "nat", l[3][1], k) : k \in Leaves("nat") } \cup { l[3][1], Num("real", 1) } } : l \in ExpDeep }
-Goals == GoalsA \cup GoalsB \cup GoalsN \cup GoalsX
+\* comparisons of surds (C05_Surd): sqrt k, sqrt (-2), - sqrt k, j + sqrt k, j * sqrt k against each other, against roots and numerals,
+\* in both orders, and as disequalities.  No step model evaluates a root (RealEv fails), so every model rejects them; the real
+\* const_inequality decides them through floating point.  ValTotal: the meaning decides every one of them; BigAgrees: where the root
+\* is rational (sqrt 0, sqrt 1, sqrt 4, ...) the native evaluation and the comparison by squaring agree.
+Sq(a) == Un("sqrt", "real", "real", a)
+Roots == { Sq(a) : a \in Leaves("real") \cup {NegNum("real", 2)} }
+SurdTerms == Roots \cup { UMinus("real", Sq(a)) : a \in Leaves("real") }
+             \cup { Bin(op, "real", j, Sq(a)) : op \in {"plus", "times"}, j \in Leaves("real"), a \in Leaves("real") }
+GoalsS == LET pairs == (SurdTerms \X (Roots \cup Leaves("real"))) \cup (Leaves("real") \X Roots) IN
+          { Rel(rel, "real", p[1], p[2]) : rel \in Rels, p \in pairs } \cup { Not(Rel("equals", "real", p[1], p[2])) : p \in pairs }
+Goals == GoalsA \cup GoalsB \cup GoalsN \cup GoalsX \cup GoalsS
 
 \* ---------------------------------------------------------------- the machine
 VARIABLES goal, step, out
